@@ -10,7 +10,7 @@ Definition graph_how (f : graph_field) : bytes * how :=
   match f with
   | GrFg => (bs "foreground", HCol) | GrBg => (bs "background", HCol)
   | GrPos => (bs "pos", HPt F32_ONE) | GrScale => (bs "scale", HPt F32_MAX)
-  | GrGrid => (bs "grid", HNum NChr) | GrAlign => (bs "align", HAlign) | GrClip => (bs "clip", HClip)
+  | GrGrid => (bs "grid", HGrid) | GrAlign => (bs "align", HAlign) | GrClip => (bs "clip", HClip)
   | GrLpos => (bs "lpos", HNum NChr) | GrAxes => (bs "axes", HStr) | GrWorlds => (bs "worlds", HStr)
   end.
 
@@ -93,18 +93,36 @@ Proof.
   - cbn [fst snd sok]. rewrite abs_set_align. reflexivity.
 Qed.
 
+Lemma abs_set_grid o v : abs (OGraph (set_gr_grid v o)) = aput (abs (OGraph o)) (bs "grid") (PInt v).
+Proof. rewrite !abs_graph. reflexivity. Qed.
+
+(* grid type (as patched): a character, else the number 0..255 *)
+Lemma graph_grid_refines (s : option source) o :
+  apply_named KGraph (abs (OGraph o)) (bs "grid") HGrid (asrc_of s) =
+  (sok (fst (graph_set_field GrGrid s o)), abs (OGraph (snd (graph_set_field GrGrid s o)))).
+Proof.
+  unfold apply_named. change (ok_default KGraph (bs "grid")) with (PInt 0).
+  destruct s as [src|]; cbn [asrc_of graph_set_field grid_type].
+  - unfold denote, den_grid, den_num, num_field.
+    destruct (src_number NChr src) as [e| | |v] eqn:E; cbn [fst snd sok]; rewrite ?E; cbn [fst snd sok].
+    + destruct (src_number NU8 src) as [e2| | |v2] eqn:E2; cbn [fst snd sok coerce]; rewrite ?abs_set_grid; reflexivity.
+    + rewrite abs_set_grid. reflexivity.
+    + reflexivity.
+    + rewrite abs_set_grid. reflexivity.
+  - unfold num_field. cbn [fst snd sok]. rewrite abs_set_grid. reflexivity.
+Qed.
+
 Lemma graph_named f (s : option source) o :
   (forall x, s = Some x -> wf_source x) ->
   apply_named KGraph (abs (OGraph o)) (fst (graph_how f)) (snd (graph_how f)) (asrc_of s) =
   (sok (fst (graph_set_field f s o)), abs (OGraph (snd (graph_set_field f s o)))).
 Proof.
   intros W. destruct f; cbn [graph_how fst snd]; try apply graph_clip_refines; try apply graph_align_refines;
-    cbn [graph_set_field].
+    try apply graph_grid_refines; cbn [graph_set_field].
   - col_case abs_graph.
   - col_case abs_graph.
   - pt_case abs_graph.
   - pt_case abs_graph.
-  - num_case abs_graph.
   - num_case abs_graph.
   - str_case abs_graph W.
   - str_case abs_graph W.
